@@ -81,18 +81,27 @@ func (c *Controller) Adopt() {
 
 // Drain releases every blocked goroutine and turns all gates of c into pass-throughs.
 func (c *Controller) Drain() {
-	c.drained.Store(true)
+	c.Free()
 	c.mu.Lock()
-	for e := range c.pending {
-		close(e.release)
-	}
-	c.pending = map[*Event]struct{}{}
 	for _, o := range c.owners {
 		byOwner.Delete(o)
 	}
 	for g := range c.goids {
 		byGoid.Delete(g)
 	}
+	c.mu.Unlock()
+}
+
+// Free releases every blocked goroutine and lets everything run ungated from now on; the
+// goroutines stay known to c, so that their sleep gates return at once instead of falling
+// back to a real sleep.
+func (c *Controller) Free() {
+	c.drained.Store(true)
+	c.mu.Lock()
+	for e := range c.pending {
+		close(e.release)
+	}
+	c.pending = map[*Event]struct{}{}
 	c.mu.Unlock()
 }
 
